@@ -75,8 +75,27 @@ def run(index, tier="quick", seed=0) -> Result:
     aligned = [e for e in r["events"] if e.type == "enter" and not e.entry and e.callee.name == "_align_points_by_normal"] or \
         [e for e in r["events"] if e.type == "dotcall" and e.left is not None and "world3" in e.left.tags and e.right is not None
          and "orth" in e.right.tags and "transposed" in e.right.tags]
-    # np.dot(points, M) applies M^T to every point: the forward rotation R needs M = R.T
-    if rot_pts and all("transposed" in e.right.tags for e in rot_pts) and aligned:
+    # ... on the path of (N, 2) points as well as on the path of (N, 3) points: the member is run once more per documented width of
+    # `points` (the column count is a static fact then, the `shape[1] == 2` test folds) and every width must rotate
+    from ..values import Val as _Val
+    unrot = []
+    pname = fn.params[1] if len(fn.params) > 1 else "points"
+    for width in (2, 3):
+        itw = Interp(index, config={"fold_branches": True})
+        pv = _Val(kind="arr", dim=("D", 1), pdeps=frozenset([pname]), al=frozenset([("param", pname)]),
+                  tags=frozenset(["batch", "raw-param", ("shape-last", width, 2)]))
+        rw = itw.run_entry(fn, P, args={pname: pv})
+        if not rw["returns"]:
+            continue
+        rots_w = [e for e in rw["events"] if e.type == "dotcall" and e.func is fn and e.left is not None and pname in e.left.pdeps
+                  and e.right is not None and "orth" in e.right.tags]
+        if not rots_w:
+            unrot.append(width)
+    if rot_pts and all("transposed" in e.right.tags for e in rot_pts) and aligned and unrot:
+        res.bad("IN-7", f"Polygon.is_inside:rotation:width-{unrot[0]}", f"{fn.file}:{fn.lineno}", f"Polygon.is_inside rotates the vertices into the plane frame but leaves "
+                f"query points given with {unrot[0]} columns unrotated: for a polygon whose normal is not +z (clockwise vertices in the xy plane, a tilted plane) "
+                "points and vertices live in different frames")
+    elif rot_pts and all("transposed" in e.right.tags for e in rot_pts) and aligned:
         res.ok("IN-7", "Polygon.is_inside:rotation")
     elif not rot_pts:
         res.bad("IN-7", "Polygon.is_inside:rotation", f"{fn.file}:{fn.lineno}", "Polygon.is_inside does not map the query points with the full "
